@@ -163,9 +163,23 @@ func (s *vsCAS) GetCapabilities(ctx context.Context, instanceName digest.Instanc
 	panic("vsCAS: GetCapabilities not expected")
 }
 
-type vsAllowAll struct{}
+type vsAllowAll struct {
+	rig *vsRig
+}
 
-func (vsAllowAll) Authorize(ctx context.Context, instanceNames []digest.InstanceName) []error {
+// Authorize allows everything. WaitExecution and KillOperations call it with
+// the scheduler lock released; when the harness asked for it (authRace), time
+// may pass right here: the no-waiter timeout of the operation being looked up
+// expires and the scheduler notices, before the call re-takes the lock.
+func (a vsAllowAll) Authorize(ctx context.Context, instanceNames []digest.InstanceName) []error {
+	if r := a.rig; r != nil && r.authRace && r.inUnlockedWindow {
+		r.inUnlockedWindow = false
+		if rt.NondetBool("timeouts expire during authorization") {
+			r.advance(vsNoWaitersTimeout + time.Second)
+			r.poke()
+			rt.Cover("auth:time-passed")
+		}
+	}
 	return make([]error, len(instanceNames))
 }
 
@@ -418,6 +432,8 @@ type vsRig struct {
 	step               int
 	maxBackground      int
 
+	authRace         bool // let timeouts expire inside the unlocked authorization windows
+	inUnlockedWindow bool
 	opLastDetach map[string]time.Time // operation name -> when a stream last left it
 
 	// what has happened so far that can legitimately make the scheduler fail a task
@@ -460,7 +476,7 @@ func vsNewRig(retryCount int) *vsRig {
 		u[1] = byte(r.uuids)
 		u[15] = 0x5c
 		return u, nil
-	}, r.cfg, 1<<20, &vsRouter{rig: r}, vsAllowAll{}, vsAllowAll{}, vsAllowAll{}, vsAllowAll{})
+	}, r.cfg, 1<<20, &vsRouter{rig: r}, vsAllowAll{rig: r}, vsAllowAll{}, vsAllowAll{rig: r}, vsAllowAll{})
 	return r
 }
 
@@ -587,7 +603,9 @@ func (r *vsRig) waitExecution(c *vsClient, name string) *vsStream {
 	s := &vsStream{rig: r, id: len(r.streams), client: c, ctx: vsNewCtx(c), isWait: true}
 	r.streams = append(r.streams, s)
 	rt.Go(func() {
+		r.inUnlockedWindow = true
 		err := r.bq.WaitExecution(&remoteexecution.WaitExecutionRequest{Name: name}, s)
+		r.inUnlockedWindow = false
 		rt.Sync()
 		r.streamReturned(s, err)
 	})
@@ -830,6 +848,8 @@ func (r *vsRig) cancelStream(s *vsStream) { s.ctx.cancel() }
 // kill kills the operation with the given name as an operator would.
 func (r *vsRig) kill(name string) error {
 	r.killStatus = status.New(codes.Aborted, "Killed by operator").Proto()
+	r.inUnlockedWindow = true
+	defer func() { r.inUnlockedWindow = false }()
 	_, err := r.bq.KillOperations(context.Background(), &buildqueuestate.KillOperationsRequest{
 		Filter: &buildqueuestate.KillOperationsRequest_Filter{Type: &buildqueuestate.KillOperationsRequest_Filter_OperationName{OperationName: name}},
 		Status: r.killStatus,
